@@ -335,7 +335,7 @@ func listSegs(dir string) []segment.Segment {
 	return segs
 }
 
-var needsLog = map[string]bool{"close": true, "pub": true, "next": true, "sync": true, "gc": true, "stat": true,
+var needsLog = map[string]bool{"close": true, "pub": true, "pubbig": true, "next": true, "sync": true, "gc": true, "stat": true,
 	"cons": true, "consk": true, "get": true, "getk": true, "gett": true, "offk": true, "offt": true, "del": true,
 	"delm": true, "size": true, "findo": true, "findc": true, "finds": true, "finda": true, "fupd": true, "fdel": true,
 	"trimo": true, "trimc": true, "trims": true, "trima": true, "cupd": true, "cdel": true, "trim1o": true,
@@ -384,6 +384,19 @@ func step(st *hstate, f []string) []string {
 			fmt.Fprintf(&sb, " %d", m.Offset)
 		}
 		return []string{sb.String()}
+	case "pubbig":
+		// a batch of <n> small messages followed by one whose key+value exceeds the 64 MiB body guard
+		k, _ := strconv.Atoi(f[1])
+		msgs := make([]klevdb.Message, 0, k+1)
+		for i := 0; i < k; i++ {
+			msgs = append(msgs, klevdb.Message{Time: time.UnixMicro(1000).UTC(), Key: []byte("g"), Value: []byte{byte(65 + i)}})
+		}
+		msgs = append(msgs, klevdb.Message{Time: time.UnixMicro(1000).UTC(), Key: []byte("g"), Value: make([]byte, 64*1024*1024)})
+		n, err := l.Publish(msgs)
+		if err != nil {
+			return e(err)
+		}
+		return []string{fmt.Sprintf("ok %d", n)}
 	case "next":
 		n, err := l.NextOffset()
 		if err != nil {
